@@ -13,6 +13,7 @@ import (
 	"verif/exact"
 	"verif/gen"
 	"verif/model"
+	"verif/props/shared"
 	"verif/run"
 )
 
@@ -29,7 +30,7 @@ func init() {
 			{Name: "thorough-checkptr", BuildFlags: []string{"-gcflags=all=-d=checkptr"}},
 			{Name: "thorough-asan", BuildFlags: []string{"-asan"}},
 		},
-		RequiredMonitors: []string{"construct", "bytes-vs-independent", "roundtrip", "reencode", "independent-reader", "byteorder", "trailing", "append-prefix", "value", "scan-match", "scan-mismatch", "null"},
+		RequiredMonitors: []string{"construct", "bytes-vs-independent", "roundtrip", "reencode", "independent-reader", "byteorder", "trailing", "append-prefix", "value", "scan-match", "scan-mismatch", "null", "concrete-entry"},
 		Run:              runAll,
 	})
 }
@@ -53,6 +54,7 @@ func checkTree(k *run.K, t model.Tree, scan bool) {
 	if k.Lib("nopanic", func() { lib = g.AsBinary() }) {
 		return
 	}
+	shared.ConcreteAgree(k, g, "concrete-entry", []shared.Call{{Method: "AsBinary"}, {Method: "AppendWKB", Args: []any{[]byte("prefix")}}, {Method: "Value"}}, nil)
 	k.In("wkb", lib)
 	want := codec.EncodeWKB(t)
 	k.Check("bytes-vs-independent", bytes.Equal(lib, want), "AsBinary differs from the independent little-endian writer:\n lib  %x\n want %x", lib, want)
